@@ -7,7 +7,7 @@
 (*   ev    : what the boundary probes logged, in order                     *)
 (*             ["pkg", b] ["dRes", b] ["dRow", b, k] ["sRes", b, k]        *)
 (*             ["sRow", b, k, row] ["sEndRes", b, k] ["sEndAll", b]        *)
-(*             ["sExc", b]                                                 *)
+(*             ["sExc", b]   ["fin", i] (finalizer i's callback is invoked)*)
 (*   fin   : what the run left behind - outcome, results, what each        *)
 (*           observer persisted / whether it committed, finalizer calls,   *)
 (*           measured read-ahead                                           *)
@@ -37,6 +37,8 @@ TraceInit == \E tt \in 1..Len(Traces) :
 \* the event a transition shows to the probes (<<>> = invisible)
 EventOf ==
   IF pkgDone' # pkgDone THEN <<"pkg", pkgDone'>>
+  ELSE IF \E i \in 1..N : loc'[i].calls # loc[i].calls
+       THEN <<"fin", CHOOSE i \in 1..N : loc'[i].calls # loc[i].calls>>     \* a finalizer's callback runs
   ELSE IF ctl' = ctl \/ ctl'.dir = "none" THEN <<>>
   ELSE IF ctl'.dir = "down"
        THEN IF ctl.dir = "up" /\ ctl.at = ctl'.at THEN <<>>           \* a step re-entering itself (sort starts emitting)
